@@ -22,6 +22,13 @@ WORK = VERIF / ".work"
 JAR = "/opt/veriftools/tla/tla2tools.jar:/opt/veriftools/tla/CommunityModules-deps.jar"
 
 
+def pick_cfg(base: str, tier: str) -> str:
+    """spec/<base>_thorough.cfg for the thorough tier when it exists, else spec/<base>.cfg"""
+    if tier == "thorough" and (SPEC / f"{base}_thorough.cfg").exists():
+        return f"{base}_thorough.cfg"
+    return f"{base}.cfg"
+
+
 class TLCError(RuntimeError):
     """Machinery failure (parse error, crash, timeout): never a property verdict."""
 
